@@ -61,7 +61,13 @@ def replay(ctx, pair, hists, algs=("env", "chol", "gso", "svd"), kind="plain", t
         cmd += ["--trace", trace]
     env = dict(vlib.ASAN_ENV) if kind == "asan" else None
     rc, out = vlib.sh(cmd, timeout=3000, env=env)
-    recs = [json.loads(l) for l in out.splitlines() if l.startswith("{")]
+    recs = []
+    for l in out.splitlines():
+        if l.startswith("{"):
+            try:
+                recs.append(json.loads(l))
+            except ValueError:
+                pass                    # a line cut off by a dying driver: reported below as a crash (no summary record)
     summ = [r for r in recs if r.get("t") == "summary"]
     crashed = rc != 0 or not summ
     return recs, (summ[0] if summ else None), crashed, out, rc
